@@ -3,6 +3,8 @@ bit-exact.  The property as a whole quantifies over schedules and ring
 contents and is not statically decidable; this check decides its structural
 necessary conditions (DESIGN.md 4/C04)."""
 from .. import runtimerules as RR
+from ..locks import LockAnalysis
+from ..channelrules import rule_empty_drained, rule_cursor_pair
 
 EXPLANATION = (
     "Static path analysis over the clang CFGs of source.c, sink.c, filter.c and "
@@ -18,7 +20,9 @@ EXPLANATION = (
     "with containerof on its own argument (two streams never mix). R-FRAME-ID: "
     "the header's frame_id is a counter that starts at 0 and is incremented once, "
     "together with the header fill; the hardware id is copied from the camera's "
-    "ImageInfo. Bit-exactness, order and multiplicity under schedules, and all "
+    "ImageInfo. From C01, because the flush loops depend on them: an empty "
+    "region means drained (equality-domain dataflow on channel_read_map) and a "
+    "cursor's position is never reset without its lap. Bit-exactness, order and multiplicity under schedules, and all "
     "write delays (timing), are not decided.")
 
 
@@ -34,6 +38,9 @@ def run(ctx, res):
     RR.rule_loop_until_empty(prog, res, "video_sink_thread", "last")
     RR.rule_wiring(prog, res)
     RR.rule_frame_counter(prog, res)
+    # the channel clauses every flush loop depends on (anchored in channel.c)
+    rule_empty_drained(prog, res)
+    rule_cursor_pair(prog, res, LockAnalysis(prog))
     res.require_min("PAIR", 4)
     res.require_min("NOT-AFTER", 2)
     res.require_min("LOOP-UNTIL", 1)
